@@ -668,7 +668,95 @@ def c14_sequences(inp):
     return {"reproduced": False, "detail": f"preprocessing histories agree with the scipy model on {checked} sequences (length <= 3)"}
 
 
-DRIVERS = {"c03_split": c03_split, "c14_sequences": c14_sequences, "c16_dialog": c16_dialog, "c02_merge": c02_merge, "c09_run": c09_run, "c10_run": c10_run, "c10_fn": c10_fn}
+# ----------------------------------------------------------------------------------
+# C13 / C04: spectral estimation against direct scipy calls
+# ----------------------------------------------------------------------------------
+
+def _sd_reference(Yall, Yref, dt, nxseg, method, pov):
+    from scipy import signal
+    x = Yall[:, None, :]
+    y = Yref[None, :, :]
+    if method == "per":
+        return signal.csd(x, y, fs=1 / dt, nperseg=nxseg, noverlap=nxseg * pov, window="hann")
+    _, P = signal.csd(x, y, nperseg=nxseg // 2, nfft=nxseg, noverlap=0, window="boxcar")
+    R = np.fft.irfft(P)
+    n = R.shape[2]
+    R = R * signal.windows.exponential(n, center=0, tau=-n / np.log(0.01), sym=False)
+    S_ = np.fft.rfft(R)
+    return np.arange(S_.shape[2]) / (dt * nxseg), S_
+
+
+def c13_sdest(inp):
+    from pyoma2.functions import fdd
+    rng = np.random.RandomState(2)
+    n_ok = 0
+    for method in ("per", "cor"):
+        for nxseg in (16, 17, 64, 101, 256):
+            for pov in (0.0, 0.25, 0.5, 0.75):
+                if method == "per" and abs(nxseg * pov - round(nxseg * pov)) > 1e-12:
+                    continue
+                for fs in (1.0, 37.5):
+                    Yall, Yref = rng.randn(3, 4 * nxseg + 7), rng.randn(2, 4 * nxseg + 7)
+                    try:
+                        f, S_ = fdd.SD_est(Yall.copy(), Yref.copy(), 1 / fs, nxseg, method=method, pov=pov)
+                    except Exception as e:      # noqa: BLE001
+                        return {"reproduced": True, "detail": f"SD_est raised {type(e).__name__} ({e}) for {method}, nxseg={nxseg}, pov={pov}"}
+                    fr, Sr = _sd_reference(Yall, Yref, 1 / fs, nxseg, method, pov)
+                    grid = np.arange(nxseg // 2 + 1) * fs / nxseg
+                    if f.shape != grid.shape or not np.allclose(f, grid, rtol=1e-12, atol=1e-12):
+                        return {"reproduced": True, "detail": f"SD_est frequency grid is not k*fs/nxseg for method={method}, nxseg={nxseg}, fs={fs}: "
+                                                              f"last line {f[-1]:.6g}, expected {grid[-1]:.6g}"}
+                    if S_.shape != Sr.shape or not np.allclose(S_, Sr, rtol=1e-10, atol=1e-14):
+                        return {"reproduced": True, "detail": f"SD_est differs from the prescribed scipy estimate for method={method}, nxseg={nxseg}, pov={pov}, fs={fs}"}
+                    n_ok += 1
+    return {"reproduced": False, "detail": f"SD_est equals the prescribed scipy estimate and grid on {n_ok} configurations"}
+
+
+def c04_preger(inp):
+    from pyoma2.functions import fdd
+    rng = np.random.RandomState(4)
+    n_ok = 0
+    for trial in range(24):
+        S = int(rng.randint(2, 4))
+        n_ref = int(rng.randint(1, 4))
+        nxseg = int(rng.choice([32, 64, 100]))
+        pov = float(rng.choice([0.0, 0.25, 0.5, 0.75]))
+        method = ("per", "cor")[trial % 2]
+        fs = float(rng.choice([1.0, 50.0]))
+        Y = []
+        for s_ in range(S):
+            nm = int(rng.randint(1, 4))
+            nd = 6 * nxseg + int(rng.randint(0, 9))
+            g = float(np.exp(rng.uniform(-2, 2)))
+            Y.append({"ref": g * rng.randn(n_ref, nd), "mov": g * rng.randn(nm, nd)})
+        try:
+            f, Sy = fdd.SD_PreGER([{k: v.copy() for k, v in y.items()} for y in Y], fs, nxseg=nxseg, pov=pov, method=method)
+        except Exception as e:      # noqa: BLE001
+            return {"reproduced": True, "detail": f"SD_PreGER raised {type(e).__name__} ({e})"}
+        G = []
+        for y in Y:
+            fr, Sr = _sd_reference(np.vstack((y["ref"], y["mov"])), y["ref"], 1 / fs, nxseg, method, pov)
+            G.append(Sr)
+        Gbar = sum(g[:n_ref, :n_ref] for g in G) / S
+        want = []
+        for k in range(G[0].shape[2]):
+            blocks = [Gbar[:, :, k]]
+            for g in G:
+                blocks.append(g[n_ref:, :n_ref, k] @ np.linalg.inv(g[:n_ref, :n_ref, k]) @ Gbar[:, :, k])
+            want.append(np.vstack(blocks))
+        want = np.moveaxis(np.array(want), 0, 2)
+        if Sy.shape != want.shape or not np.allclose(f, fr) or not np.allclose(Sy, want, rtol=1e-7, atol=1e-12):
+            which = ""
+            if Sy.shape == want.shape:
+                d = np.argwhere(~np.isclose(Sy, want, rtol=1e-7, atol=1e-12))
+                which = f"first differing entry row {int(d[0][0])} (reference rows: 0..{n_ref - 1})"
+            return {"reproduced": True, "detail": f"SD_PreGER differs from [mean reference block; transmissibility x mean] for method={method}, "
+                                                  f"nxseg={nxseg}, pov={pov}, setups={S}, n_ref={n_ref}: {which}"}
+        n_ok += 1
+    return {"reproduced": False, "detail": f"SD_PreGER has the prescribed block structure on {n_ok} random multi-setup records"}
+
+
+DRIVERS = {"c13_sdest": c13_sdest, "c04_preger": c04_preger, "c03_split": c03_split, "c14_sequences": c14_sequences, "c16_dialog": c16_dialog, "c02_merge": c02_merge, "c09_run": c09_run, "c10_run": c10_run, "c10_fn": c10_fn}
 
 
 def main():
